@@ -256,6 +256,13 @@ def default_lang_twice(form) -> bool:
     return False
 
 
+def ref_to_root(form) -> bool:
+    """a ${reference} to the survey root itself (`data`, or the settings `name`)"""
+    root = str(settings_of(form).get("name", "data"))
+    pat = "${" + root + "}"
+    return any(pat in str(v) for sheet in ("survey", "choices", "entities", "settings") for r in form.get(sheet) or [] for v in r.values())
+
+
 def shape(form) -> dict:
     if not isinstance(form, dict):
         return {}
@@ -289,6 +296,7 @@ def shape(form) -> dict:
         "blank_before_grouped": blank_before_grouped(form),
         "default_lang_twice": default_lang_twice(form),
         "depth": max_depth(form),
+        "ref_to_root": ref_to_root(form),
     }
 
 
@@ -338,6 +346,7 @@ MATCHERS = {
     and f.extra.get("exc") in ("AttributeError", "TypeError") and "NoneType" in f.extra.get("msg", ""),
     "F42-default-language-column-twice": lambda f: sh(f).get("default_lang_twice")
     and (crash(f, {"TypeError"}, r"^survey\.py:insert_output_values$") or crash(f, {"KeyError"}, r"^survey\.py:itext$")),
+    "F43-reference-to-root": lambda f: crash(f, {"IndexError"}, r"^survey\.py:_relative_path$") and sh(f).get("ref_to_root"),
     "F39-empty-reference": lambda f: f.kind in ("not-located", "accepted-broken")
     and f.extra.get("mutation") in ("malformed_ref", "malformed_ref_choice") and "${}" in str(f.extra.get("site")),
 }
@@ -396,6 +405,9 @@ def directed_cases():
                                                {"type": "text", "name": "t", "label": "T"}, {"type": "end group"})})
     add("F33-search-on-ref-select", {"survey": rep_q + S({"type": "select_one ${q}", "name": "s", "label": "S", "appearance": "search('x')"})})
     add("F34-entities-no-dataset", {"survey": S(T), "entities": [{"label": "x"}]})
+    add("F43-reference-to-root", {"survey": S({"type": "text", "name": "q", "label": "Q", "relevant": "${data} != ''"})})
+    add("F43-reference-to-root", {"survey": S({"type": "begin group", "name": "g", "label": "G"},
+                                              {"type": "text", "name": "q", "label": "Q ${data}"}, {"type": "end group"})})
     add("F34-survey-internal-column", {"survey": S({"type": "text", "name": "a", "label": "A", "children": "0"}), "settings": [{"flat": "yes"}]})
     add("F34-survey-internal-column", {"survey": S({"type": "text", "name": "a", "label": "A", "children::x": "0"})})
     add("F41-blank-cell-before-grouped-column", {"survey": S({"type": "text", "name": "a", "parameters": " ", "label::en": "A"})})
